@@ -301,6 +301,58 @@ func endStreamErrorAlwaysSet(c *core.Ctx) {
 			bad++
 		}
 	})
+	// the handler's trailers travel in the same message on every path: the message's metadata field holds the
+	// trailer parameter itself, or a map the parameter was merged into
+	var trailerParam *types.Var
+	for i := 0; i < sig.Params().Len(); i++ {
+		if astx.TypeIs(sig.Params().At(i).Type(), "net/http", "Header") {
+			trailerParam = sig.Params().At(i)
+		}
+	}
+	var metaField *types.Var
+	if st, ok := derefType(msgObj.Type()).Underlying().(*types.Struct); ok {
+		for i := 0; i < st.NumFields(); i++ {
+			if astx.TypeIs(st.Field(i).Type(), "net/http", "Header") {
+				metaField = st.Field(i)
+			}
+		}
+	}
+	if trailerParam == nil || metaField == nil {
+		c.Undecided("trailers-kept", fd.Pos(), "trailer parameter or metadata field not identified")
+	} else {
+		tpaths, lost := 0, 0
+		astx.ForEachPathTo(info, fd.Body, target, func(s *astx.State) {
+			tpaths++
+			holds := false // the field currently holds the handler's trailers
+			for _, st := range s.Steps {
+				ast.Inspect(st, func(n ast.Node) bool {
+					switch x := n.(type) {
+					case *ast.KeyValueExpr:
+						if id, ok := x.Key.(*ast.Ident); ok && info.Uses[id] == types.Object(metaField) {
+							holds = astx.ObjOf(info, x.Value) == types.Object(trailerParam)
+						}
+					case *ast.AssignStmt:
+						for i, l := range x.Lhs {
+							if astx.FieldOf(info, l) == metaField && i < len(x.Rhs) {
+								holds = astx.ObjOf(info, x.Rhs[i]) == types.Object(trailerParam)
+							}
+						}
+					case *ast.CallExpr:
+						if f := astx.CalleeFunc(info, x); f != nil && f.Name() == "mergeHeaders" && len(x.Args) == 2 {
+							if astx.FieldOf(info, x.Args[0]) == metaField && astx.ObjOf(info, x.Args[1]) == types.Object(trailerParam) {
+								holds = true
+							}
+						}
+					}
+					return true
+				})
+			}
+			if !holds {
+				lost++
+			}
+		})
+		c.Check(lost == 0 && tpaths > 0, "trailers-kept", target.Pos(), "%d path(s) to the encoding of the end-of-stream message, %d of them with a metadata map that does not contain the handler's trailers", tpaths, lost)
+	}
 	if trunc {
 		c.Undecided("error-set", fd.Pos(), "path enumeration truncated")
 		return
